@@ -190,12 +190,20 @@ func (s *c22) Final(w *World) *Violation {
 	if !s.victim.Done() {
 		return &Violation{Property: "C22", Rule: "R2", Signature: "victim-stuck:" + sig, Detail: "the request whose code panicked never terminated"}
 	}
+	if len(s.victim.Errs) == 0 && !(s.fn == "read" && s.side == "requestor") {
+		return &Violation{Property: "C22", Rule: "R2", Signature: "victim-no-error:" + sig, Detail: fmt.Sprintf("the panic was not turned into an error for the request: it ended without any error (%d nodes delivered)", len(s.victim.Visits))}
+	}
 	if len(s.victim.Errs) == 0 {
 		// the only way to end without an error is to have lost nothing: a panicking
 		// local read counts as a local miss and the block may come from the responder
 		vref := Ref(s.dagV.Root, AllSelector(10), full(s.dagV), 0)
 		if i, ok := visitsEqual(s.victim.Visits, vref.Visits); !ok {
 			return &Violation{Property: "C22", Rule: "R2", Signature: "victim-no-error:" + sig, Detail: fmt.Sprintf("the request whose code panicked ended without any error but its result differs from the reference at visit %d (got %d want %d)", i, len(s.victim.Visits), len(vref.Visits))}
+		}
+		for _, l := range vref.Loads {
+			if !s.a.Store.Has(l.Cid) {
+				return &Violation{Property: "C22", Rule: "R2", Signature: "victim-no-error-block-not-stored:" + sig, Detail: fmt.Sprintf("the request ended without any error but block %s is not in the requestor's store", shortCid(l.Cid))}
+			}
 		}
 	}
 	node := s.a
